@@ -1018,6 +1018,17 @@ func (fx *FuncExec) execUnlock(st *State, mu Val, pos token.Pos) {
 				}
 			}
 		}
+		if fx.fc != nil {
+			// `at unlock #N assert e`: two-state assertion over this critical section (old = at the Lock)
+			for _, us := range fx.fc.Unlocks {
+				if us.Ordinal == -1 || us.Ordinal == fx.unlockOrd {
+					uenv := fx.specEnv(st, rec.AtLock)
+					for _, a := range us.Asserts {
+						fx.obligeClause("assert@unlock", st, uenv, a, fmt.Sprintf("at unlock #%d: %s", fx.unlockOrd, a.Text), pos)
+					}
+				}
+			}
+		}
 		env := &SpecEnv{fx: fx, cur: st, old: rec.AtLock, bind: map[string]Val{"self": self}, calleeMode: true, pkgOf: owner}
 		for _, inv := range ts.Invariants {
 			fx.oblige("lockinv", st, fx.evalBool(env, inv), fmt.Sprintf("invariant of %s re-established at unlock: %s", ts.Name, inv.Text), pos)
